@@ -204,3 +204,212 @@ impl Check for Analyses {
         })
     }
 }
+
+// ------------------------------------------------------------------ enforcement campaign
+
+use crate::generators::task::{self as gt, Chooser};
+use crate::ops;
+use anthem::syntax_tree::fol::sigma_0 as fol;
+
+#[derive(Clone, Debug)]
+pub struct EnfCase {
+    pub choices: Vec<u16>,
+    pub breakage: u8,
+    pub on_left: bool,
+    pub bypass: bool,
+}
+
+pub struct Enforcement;
+
+const BREAKAGES: [&str; 9] = [
+    "none",
+    "non-tight",
+    "private-recursion-through-negation",
+    "private-choice-head",
+    "input-in-head",
+    "input-output-overlap",
+    "ug-assumption-with-non-input",
+    "spec-assumption-with-output",
+    "placeholder-two-sorts",
+];
+
+fn unary(p: &str, t: asp::Term) -> asp::Atom {
+    asp::Atom {
+        predicate_symbol: p.into(),
+        terms: vec![t],
+    }
+}
+
+fn positive(a: asp::Atom) -> asp::AtomicFormula {
+    asp::AtomicFormula::Literal(asp::Literal {
+        sign: asp::Sign::NoSign,
+        atom: a,
+    })
+}
+
+impl Check for Enforcement {
+    type Case = EnfCase;
+    fn name(&self) -> &'static str {
+        "enforcement"
+    }
+    fn cases(&self, tier: Tier) -> usize {
+        tier.pick(4_000, 100_000)
+    }
+    fn strategy(&self, _tier: Tier) -> BoxedStrategy<EnfCase> {
+        (gt::choices(160), 0u8..9, any::<bool>(), any::<bool>())
+            .prop_map(|(choices, breakage, on_left, bypass)| EnfCase {
+                choices,
+                breakage,
+                on_left,
+                bypass,
+            })
+            .boxed()
+    }
+    fn rule(&self) -> String {
+        "external-equivalence task that is valid by construction, with exactly one precondition broken on purpose (or none: control), on the left or right program, with and without --bypass-tightness; oracle: a broken task yields an error and no problems, except a merely non-tight program under --bypass-tightness, which yields problems; the control yields problems; non-trivial = a precondition was broken; distinct by task + breakage; labels = breakage kind and the error variant reported".into()
+    }
+    fn run(&self, case: &EnfCase) -> Outcome {
+        let mut c = Chooser::new(case.choices.clone());
+        let mut task = gt::external_task(&mut c);
+        let flags = gt::flags(&mut c);
+        let var = |v: &str| asp::Term::Variable(asp::Variable(v.into()));
+        let input = task.names.inputs[0].0.clone();
+        let output = task.names.outputs[0].0.clone();
+        let mut kind = BREAKAGES[case.breakage as usize % BREAKAGES.len()];
+        // programs the breakage can be applied to
+        let left_is_program = task.left_program.is_some();
+        let on_left = case.on_left && left_is_program;
+        let private_of_side = if on_left { task.names.left_private[0].0.clone() } else { task.names.right_private[0].0.clone() };
+        {
+            let program: &mut asp::Program = if on_left { task.left_program.as_mut().unwrap() } else { &mut task.right };
+            match kind {
+                "non-tight" => program.rules.push(asp::Rule {
+                    head: asp::Head::Basic(unary(&output, var("X"))),
+                    body: asp::Body {
+                        formulas: vec![positive(unary(&output, var("X"))), positive(unary(&input, var("X")))],
+                    },
+                }),
+                "private-recursion-through-negation" => program.rules.push(asp::Rule {
+                    head: asp::Head::Basic(unary(&private_of_side, var("X"))),
+                    body: asp::Body {
+                        formulas: vec![
+                            positive(unary(&input, var("X"))),
+                            asp::AtomicFormula::Literal(asp::Literal {
+                                sign: asp::Sign::Negation,
+                                atom: unary(&private_of_side, var("X")),
+                            }),
+                        ],
+                    },
+                }),
+                "private-choice-head" => program.rules.push(asp::Rule {
+                    head: asp::Head::Choice(unary(&private_of_side, var("X"))),
+                    body: asp::Body {
+                        formulas: vec![positive(unary(&input, var("X")))],
+                    },
+                }),
+                "input-in-head" => program.rules.push(asp::Rule {
+                    head: asp::Head::Basic(unary(&input, asp::Term::PrecomputedTerm(asp::PrecomputedTerm::Numeral(1)))),
+                    body: asp::Body { formulas: vec![] },
+                }),
+                _ => {}
+            }
+        }
+        let atom_f = |p: &str| {
+            fol::Formula::AtomicFormula(fol::AtomicFormula::Atom(fol::Atom {
+                predicate_symbol: p.into(),
+                terms: vec![fol::GeneralTerm::Variable("X".into())],
+            }))
+        };
+        let closed = |f: fol::Formula| fol::Formula::QuantifiedFormula {
+            quantification: fol::Quantification {
+                quantifier: fol::Quantifier::Forall,
+                variables: vec![fol::Variable { name: "X".into(), sort: fol::Sort::General }],
+            },
+            formula: Box::new(f),
+        };
+        match kind {
+            "input-output-overlap" => task.user_guide.entries.push(fol::UserGuideEntry::OutputPredicate(fol::Predicate {
+                symbol: input.clone(),
+                arity: 1,
+            })),
+            "ug-assumption-with-non-input" => {
+                let p = if c.flag(1, 2) { output.clone() } else { task.names.right_private[0].0.clone() };
+                task.user_guide.entries.push(fol::UserGuideEntry::AnnotatedFormula(gt::annotated(
+                    fol::Role::Assumption,
+                    fol::Direction::Universal,
+                    "bad",
+                    closed(fol::Formula::BinaryFormula {
+                        connective: fol::BinaryConnective::Implication,
+                        lhs: Box::new(atom_f(&input)),
+                        rhs: Box::new(atom_f(&p)),
+                    }),
+                )));
+            }
+            "spec-assumption-with-output" => match task.left_spec.as_mut() {
+                Some(spec) => spec.formulas.push(gt::annotated(
+                    fol::Role::Assumption,
+                    fol::Direction::Universal,
+                    "bad",
+                    closed(fol::Formula::BinaryFormula {
+                        connective: fol::BinaryConnective::Implication,
+                        lhs: Box::new(atom_f(&input)),
+                        rhs: Box::new(atom_f(&output)),
+                    }),
+                )),
+                None => kind = "none",
+            },
+            "placeholder-two-sorts" => {
+                task.user_guide.entries.push(fol::UserGuideEntry::PlaceholderDeclaration(fol::PlaceholderDeclaration {
+                    name: "dup".into(),
+                    sort: fol::Sort::Integer,
+                }));
+                task.user_guide.entries.push(fol::UserGuideEntry::PlaceholderDeclaration(fol::PlaceholderDeclaration {
+                    name: "dup".into(),
+                    sort: fol::Sort::General,
+                }));
+            }
+            _ => {}
+        }
+        let result = ops::external_problems(&task, &ops::empty_outline(), &flags, case.bypass);
+        let description = format!(
+            "{}\n  breakage: {kind} (on {}), bypass_tightness={}, {}",
+            crate::checks::problems::describe_external(&task),
+            if on_left { "left" } else { "right" },
+            case.bypass,
+            flags.describe()
+        );
+        let key = hash64(&description);
+        let expect_ok = kind == "none" || (kind == "non-tight" && case.bypass);
+        match (&result, expect_ok) {
+            (Ok((problems, _)), true) => {
+                // a direction without conclusions legitimately has no problems; require some for Universal
+                if problems.is_empty() && flags.direction == fol::Direction::Universal {
+                    return Outcome::fail("accepted-without-problems", format!("C11: an accepted task produced no problems\n{description}"));
+                }
+                Outcome::pass(kind != "none", key).label(format!("breakage={kind}")).label("accepted")
+            }
+            (Err((variant, _)), false) => Outcome::pass(true, key)
+                .label(format!("breakage={kind}"))
+                .label(format!("refused:{variant}")),
+            (Ok((problems, _)), false) => Outcome::fail(
+                format!("accepted-broken:{kind}"),
+                format!("C11: a task with the broken precondition '{kind}' was accepted and {} problem(s) emitted\n{description}", problems.len()),
+            ),
+            (Err((variant, msg)), true) => Outcome::fail(
+                format!("refused-valid:{variant}"),
+                format!("C11: a task that should be accepted ({kind}) was refused with {variant}: {msg}\n{description}"),
+            ),
+        }
+    }
+    fn describe(&self, case: &EnfCase) -> Value {
+        json!({"choices": case.choices, "breakage": case.breakage, "on_left": case.on_left, "bypass": case.bypass})
+    }
+    fn from_replay(&self, j: &Value) -> Option<EnfCase> {
+        Some(EnfCase {
+            choices: j["choices"].as_array()?.iter().map(|x| x.as_u64().unwrap() as u16).collect(),
+            breakage: j["breakage"].as_u64()? as u8,
+            on_left: j["on_left"].as_bool()?,
+            bypass: j["bypass"].as_bool()?,
+        })
+    }
+}
